@@ -8,13 +8,20 @@ Local Open Scope Z_scope.
 #[export] Program Instance EqDec_string : EqDec string := { eqb := String.eqb }.
 Next Obligation. apply String.eqb_eq. Qed.
 
-(* ---------- ASCII case mapping (strings.ToLower / ToUpper on ASCII) ---------- *)
+(* ---------- case mapping (strings.ToLower / ToUpper) ----------
+   Per byte: ASCII letters, and the second byte of the two-byte UTF-8 letters of
+   the Latin-1 supplement (U+00C0..U+00DE except the sign U+00D7 <-> U+00E0..
+   U+00FE except U+00F7; lead byte 0xC3 is unchanged).  This is Go's mapping on
+   strings whose non-ASCII characters all lie in U+00C0..U+00FE (the harness
+   uses such names); other scripts are outside the model. *)
 Definition lower_ascii (c : ascii) : ascii :=
   let n := nat_of_ascii c in
-  if (Nat.leb 65 n && Nat.leb n 90)%bool then ascii_of_nat (n + 32) else c.
+  if (Nat.leb 65 n && Nat.leb n 90)%bool then ascii_of_nat (n + 32)
+  else if (Nat.leb 128 n && Nat.leb n 158 && negb (Nat.eqb n 151))%bool then ascii_of_nat (n + 32) else c.
 Definition upper_ascii (c : ascii) : ascii :=
   let n := nat_of_ascii c in
-  if (Nat.leb 97 n && Nat.leb n 122)%bool then ascii_of_nat (n - 32) else c.
+  if (Nat.leb 97 n && Nat.leb n 122)%bool then ascii_of_nat (n - 32)
+  else if (Nat.leb 160 n && Nat.leb n 190 && negb (Nat.eqb n 183))%bool then ascii_of_nat (n - 32) else c.
 Fixpoint lower (s : string) : string :=
   match s with EmptyString => EmptyString | String c s => String (lower_ascii c) (lower s) end.
 Fixpoint upper (s : string) : string :=
